@@ -3,6 +3,7 @@
   enter through a hypothesis (`AtomHyp`), see Props/C04.lean for what is proved about them.
 -/
 import GtModel.Proofs.LazyEdF
+import GtModel.Proofs.LazyMsD
 
 namespace GtModel.Lazy
 
@@ -261,6 +262,78 @@ theorem ed_keeps {l : Lbl} {s s' : EdSt} {cells cells' : List (List M)}
 
 end EdG
 
+/-! ### the MultiSetEdit's generic ghost (LazyWm*, LazyMs*) instantiated at `G` -/
+
+theorem height_ms {l : Lbl} {s : MsSt} {k : List M} {w : WmSt} {e : List (List M)} {n : Nat} :
+    height (.ms l s k w e) ≤ n + 1 ↔ (heightL k ≤ n ∧ heightLL e ≤ n) := by
+  simp only [height]
+  constructor
+  · intro h; exact Nat.max_le.mp (Nat.le_of_succ_le_succ h)
+  · intro h; exact Nat.succ_le_succ (Nat.max_le.mpr h)
+
+section MsG
+variable (a : Ghost) (F n : Nat)
+
+theorem viewRow_G : ∀ (r : List M), r.map (G a F n).view = viewRow a r
+  | [] => rfl
+  | m :: ms => by simp only [List.map, viewRow, G_view, ← viewRow_G ms]
+
+theorem viewM_G : ∀ (e : List (List M)), viewM (G a F n) e = viewLL a e
+  | [] => rfl
+  | r :: rs => by
+      have := viewM_G rs
+      simp only [viewM] at this ⊢
+      simp only [List.map, viewLL, ← this, ← viewRow_G a F n r]
+
+theorem msView_G (l : Lbl) (s : MsSt) (k : List M) (w : WmSt) (e : List (List M)) :
+    msViewOf (G a F n) s k w e = viewG a (.ms l s k w e) := by
+  simp only [msViewOf, viewG, viewM_G, sumLo_G, sumHi_G]
+  cases leftIv s w <;> rfl
+
+theorem msFin_G (l : Lbl) (s : MsSt) (k : List M) (w : WmSt) (e : List (List M)) :
+    msFinOf (G a F n) s k w e = finG a (.ms l s k w e) := by
+  simp only [msFinOf, wmFin, finM_G, sumFin_G, finG]
+
+theorem msScript_G (l : Lbl) (s : MsSt) (k : List M) (w : WmSt) (e : List (List M)) :
+    msScriptOf (G a F n) l s k w e = scriptG a (.ms l s k w e) := by
+  simp only [msScriptOf, msFin_G a F n l, scrM_G, script_G, scriptG, finG]
+
+theorem msMu_G (l : Lbl) (s : MsSt) (k : List M) (w : WmSt) (e : List (List M)) :
+    msMuOf (G a F n) s k w e = muG a (.ms l s k w e) := by
+  simp only [msMuOf, msBase, sumMu_G, muLLg_G, msView_G a F n l, muG]
+
+theorem ms_I (l : Lbl) (s : MsSt) (k : List M) (w : WmSt) (e : List (List M)) :
+    (G a F (n + 1)).I (.ms l s k w e) ↔ (MsInv (G a F n) s k w e ∧ wmFlags w + muLLg (G a F n) e < F) := by
+  rw [muLLg_G]
+  constructor
+  · rintro ⟨⟨hmu, ik, ie, sh, ok, mt, memo, hr, hi⟩, hh⟩
+    obtain ⟨h1, h2⟩ := height_ms.mp hh
+    refine ⟨⟨⟨sh, (invLL_G a F n e).mpr ⟨ie, h2⟩, ok, mt, ?_⟩, (inv_G a F n k).mpr ⟨ik, h1⟩, hr, hi⟩, hmu⟩
+    intro b hb
+    have := memo b hb
+    simpa [wmFin, finM_G, viewM_G] using this
+  · rintro ⟨inv, hmu⟩
+    obtain ⟨ik, h1⟩ := (inv_G a F n k).mp inv.kI
+    obtain ⟨ie, h2⟩ := (invLL_G a F n e).mp inv.wm.edgesI
+    refine ⟨⟨hmu, ik, ie, inv.wm.shape, inv.wm.ok, inv.wm.mt, ?_, inv.rem, inv.ins⟩, height_ms.mpr ⟨h1, h2⟩⟩
+    intro b hb
+    have := inv.wm.memo b hb
+    simpa [wmFin, finM_G, viewM_G] using this
+
+/-- an `MsKeeps` step of the generic MultiSetEdit is a `Keeps` step of the machine -/
+theorem ms_keeps {l : Lbl} {s : MsSt} {k k' : List M} {w w' : WmSt} {e e' : List (List M)}
+    (hI : (G a F (n + 1)).I (.ms l s k w e)) (mk : MsKeeps (G a F n) s k w e k' w' e') :
+    Keeps (G a F (n + 1)) (.ms l s k w e) (.ms l s k' w' e') := by
+  obtain ⟨inv, hmu⟩ := (ms_I a F n l s k w e).mp hI
+  have hfuel := mk.fuel
+  refine ⟨(ms_I a F n l s k' w' e').mpr ⟨mk.inv, by omega⟩, ?_, ?_, ?_, ?_⟩
+  · simp only [G_fin]; rw [← msFin_G a F n l, ← msFin_G a F n l]; exact mk.fin
+  · simp only [G_view]; rw [← msView_G a F n l, ← msView_G a F n l]; exact mk.sub
+  · simp only [G_mu]; rw [← msMu_G a F n l, ← msMu_G a F n l]; exact mk.mu
+  · simp only [G_script]; rw [← msScript_G a F n l, ← msScript_G a F n l]; exact mk.scr l
+
+end MsG
+
 /-- the ghost `g` restricted to atoms (`ed`, `coll`, `ms` machines) -/
 def atomsOf (g : Ghost) : Ghost := { g with I := fun m => g.I m ∧ isAtom m = true }
 
@@ -276,7 +349,6 @@ theorem pres_lift {a : Ghost} {F n : Nat} {m m' : M} (h : Pres (G a F n) m m') :
 
 theorem engine_step (q : Bool) (F : Nat) (hF : 0 < F) (a : Ghost) (hA : AtomHyp q F a) (n : Nat) (P : Protocol (mkOps q F n) (G a F n)) :
     Protocol (mkOps q F (n + 1)) (G a F (n + 1)) := by
-  have PA := hA n P
   refine ⟨?wf, ?bounds, ?tighten, ?complete, ?onDiff, ?dump⟩
   case wf =>
     intro m hm
@@ -307,7 +379,11 @@ theorem engine_step (q : Bool) (F : Nat) (hF : 0 < F) (a : Ghost) (hA : AtomHyp 
       rw [collView_G a F n l s p r] at this
       simp only [sumFin_G] at this
       simp only [G_view, G_fin, finG]; exact this
-    | .ms l s k w e, hm => exact PA.wf _ ⟨hm, rfl⟩
+    | .ms l s k w e, hm =>
+      obtain ⟨inv, _⟩ := (ms_I a F n l s k w e).mp hm
+      have := msView_wf P inv
+      rw [msView_G a F n l, msFin_G a F n l] at this
+      simp only [G_view, G_fin]; exact this
   case bounds =>
     intro m hm
     match m, hm with
@@ -373,8 +449,18 @@ theorem engine_step (q : Bool) (F : Nat) (hF : 0 < F) (a : Ghost) (hA : AtomHyp 
       rw [collView_G a F n l s p r, collView_G a F n l s' p q'] at hv
       exact ⟨.coll l s' p q', e, ⟨kp.inv, hv, kp.fin, kp.mu, kp.scr⟩, trivial⟩
     | .ms l s k w e, hm =>
-      obtain ⟨m', e, p, qq⟩ := PA.bounds _ ⟨hm, rfl⟩
-      exact ⟨m', e, ⟨p.inv.1, p.view, p.fin, p.mu, p.scr⟩, qq⟩
+      obtain ⟨inv, hmu⟩ := (ms_I a F n l s k w e).mp hm
+      obtain ⟨k', w', e', hb, pk, pp, inv', sw, hv, qk, _⟩ := msBounds_ok P l inv
+      have h1 := (KeepsL.sums pk.1).2.2.2.1
+      have h2 := pp.1.mu
+      have h3 := wmFlags_same sw
+      have mk : MsKeeps (G a F n) s k w e k' w' e' :=
+        ⟨agg_of_keepsL pk.1, pp.1, inv', sw.1, sw.2.1, sw.2.2.2.2.1, by rw [hv]; exact ⟨Nat.le_refl _, Nat.le_refl _⟩,
+          by simp only [msBase]; omega, by omega⟩
+      have kp := ms_keeps a F n hm mk
+      rw [msView_G a F n l] at hb
+      rw [msView_G a F n l, msView_G a F n l] at hv
+      exact ⟨.ms l s k' w' e', hb, ⟨kp.inv, hv, kp.fin, kp.mu, kp.scr⟩, (set_G a F n k').mp qk⟩
   case tighten =>
     intro m hm
     match m, hm with
@@ -486,8 +572,28 @@ theorem engine_step (q : Bool) (F : Nat) (hF : 0 < F) (a : Ghost) (hA : AtomHyp 
         rw [heq] at this
         omega
     | .ms l s k w e, hm =>
-      obtain ⟨m', r, e, st⟩ := PA.tighten _ ⟨hm, rfl⟩
-      exact ⟨m', r, e, ⟨st.inv.1, st.fin, st.sub, st.mu, st.dec, st.stop, st.strict, st.scr⟩⟩
+      obtain ⟨inv, hmu⟩ := (ms_I a F n l s k w e).mp hm
+      obtain ⟨k', w', e', r, ht, kk, ke, inv', a1, a2, a3, v1, v2, hb, hfu, hdec, hstop, hstrict⟩ :=
+        msTighten_ok P F l inv hmu
+      have mk : MsKeeps (G a F n) s k w e k' w' e' := ⟨agg_of_keepsL kk, ke, inv', a1, a2, a3, ⟨v1, v2⟩, hb, hfu⟩
+      have kp := ms_keeps a F n hm mk
+      refine ⟨.ms l s k' w' e', r, ht, ⟨kp.inv, kp.fin, kp.sub, kp.mu, ?_, ?_, ?_, kp.scr⟩⟩
+      · intro hr
+        have := hdec hr
+        have wf1 := msView_wf P inv
+        have wf2 := msView_wf P inv'
+        simp only [G_mu]
+        rw [← msMu_G a F n l, ← msMu_G a F n l]
+        simp only [msMuOf]
+        omega
+      · intro hr
+        have := hstop hr
+        simp only [G_view]
+        rw [← msView_G a F n l]; exact this
+      · intro hQ hr
+        have := hstrict ((set_G a F n k).mpr hQ) hr
+        simp only [G_view]
+        rw [← msView_G a F n l, ← msView_G a F n l]; exact this
   case complete =>
     intro m hm
     match m, hm with
@@ -543,9 +649,7 @@ theorem engine_step (q : Bool) (F : Nat) (hF : 0 < F) (a : Ghost) (hA : AtomHyp 
       refine ⟨.coll l s' p q', (collView (G a F n) s r).definitive, ?_, ⟨kp.inv, hv, kp.fin, kp.mu, kp.scr⟩, fun _ => trivial⟩
       show completeB (mkOps q F n) F (.coll l s p r) = _
       simp [completeB, e, bind, Except.bind, pure, Except.pure]
-    | .ms l s k w e, hm =>
-      obtain ⟨m', c', e, p, qq⟩ := PA.complete _ ⟨hm, rfl⟩
-      exact ⟨m', c', e, ⟨p.inv.1, p.view, p.fin, p.mu, p.scr⟩, qq⟩
+    | .ms l s k w e, hm => exact ⟨.ms l s k w e, w.mtch.isSome, rfl, Pres.refl _ _ hm, id⟩
 
   case onDiff =>
     intro m hm
@@ -605,8 +709,9 @@ theorem engine_step (q : Bool) (F : Nat) (hF : 0 < F) (a : Ghost) (hA : AtomHyp 
       show onDiffB (mkOps q F n) q F (.coll l s p r) = _
       simp [onDiffB, e2, bind, Except.bind, pure, Except.pure]
     | .ms l s k w e, hm =>
-      obtain ⟨m', e, p⟩ := PA.onDiff _ ⟨hm, rfl⟩
-      exact ⟨m', e, ⟨p.inv.1, p.fin, p.sub, p.mu, p.scr⟩⟩
+      obtain ⟨inv, _⟩ := (ms_I a F n l s k w e).mp hm
+      obtain ⟨k', w', e', ho, mk⟩ := msOnDiff_ok P q F l inv
+      exact ⟨.ms l s k' w' e', ho, ms_keeps a F n hm mk⟩
   case dump =>
     intro m hm hd
     match m, hm, hd with
@@ -764,8 +869,12 @@ theorem engine_step (q : Bool) (F : Nat) (hF : 0 < F) (a : Ghost) (hA : AtomHyp 
         script_G a F n _
       rw [hsl, hscr1]
     | .ms l s k w e, hm, hd =>
-      obtain ⟨m', e, p⟩ := PA.dump _ ⟨hm, rfl⟩ hd
-      exact ⟨m', e, ⟨p.inv.1, p.fin, p.sub, p.mu, p.scr⟩⟩
+      obtain ⟨inv, _⟩ := (ms_I a F n l s k w e).mp hm
+      simp only [G_view] at hd
+      rw [← msView_G a F n l] at hd
+      obtain ⟨k', w', e', hdu, mk⟩ := msDump_ok P q F l inv hd
+      rw [msScript_G a F n l] at hdu
+      exact ⟨.ms l s k' w' e', hdu, ms_keeps a F n hm mk⟩
 
 /-- `engine_protocol` modulo the atoms: every machine of every nesting depth obeys the protocol -/
 theorem engine_protocol_of_atoms (q : Bool) (F : Nat) (hF : 0 < F) (a : Ghost) (hA : AtomHyp q F a) :
